@@ -49,7 +49,13 @@ var _ = reserr.ErrTimeout
 // SendRequest: the callback is completed with an error (on another goroutine) or registered as
 // pending, exactly one of the two; a subject that cannot fit a control line is refused with
 // system.subjectTooLong before anything is sent, and whatever is published fits.
+// The adapter implements the messaging interface the cache is written against: what that
+// interface's contract promises about the completion callback is promised here as well.
+//@ implements mq.Client by *Client
+
 //@ func (*Client).SendRequest
+//@   defers cb
+//@   callback cb requires err != nil ==> reserr.predErrOK(err)
 //@   requires c != nil
 //@   assumes predReqsOK(c) && c.mq != nil && c.tq != nil
 //@   resolves[C18] cb exactly-once
@@ -58,6 +64,7 @@ var _ = reserr.ErrTimeout
 
 // Subscribe: a namespace that cannot fit a SUB control line is refused.
 //@ func (*Client).Subscribe
+//@   defers cb
 //@   requires c != nil
 //@   assumes predReqsOK(c) && c.mq != nil
 //@   ensures[C18] result1 == nil ==> result0 != nil
